@@ -203,6 +203,9 @@ func c123Run(t *testing.T, sc c123Scenario, c *vsched.Chooser) (out vsched.Outco
 		overlap, maxIn := h.overlap, h.maxIn
 		h.mu.Unlock()
 		// ---- C01
+		for _, tp := range s.ThreadPanics {
+			v = append(v, vsched.Fail("C02:panic-in-client-thread/"+sc.kind.name, "%s", tp))
+		}
 		if overlap != "" || maxIn > 1 {
 			v = append(v, vsched.Fail("C01:handler-overlap/"+sc.kind.name, "%s (max concurrently open handlers %d)", overlap, maxIn))
 		}
